@@ -6,12 +6,12 @@ CONSTANTS
   NNames = 2
   NTexts = 2
   GenDepth = 99
-  Ops = {"mkbundle","mkcat","post","delart","delitem","get","list","cats","reload","setname"}
+  Ops = {"mkbundle","mkcat","post","delart","delitem","get","list","cats","reload","setname","stale"}
   Thin = FALSE
 INIT Init
 NEXT Next
 VIEW View
 CONSTRAINT Bound
 INVARIANTS ReloadIsIdentity
-PROPERTIES FreshId LinksOnPost OthersUntouched DeleteExactlyThat ReloadKeeps ListStaysParseable ChildrenStay
+PROPERTIES StaleChangesNothing FreshId LinksOnPost OthersUntouched DeleteExactlyThat ReloadKeeps ListStaysParseable ChildrenStay
 CHECK_DEADLOCK FALSE
